@@ -400,3 +400,27 @@ def eval3(n, facts):
     if c is not None:
         return bool(c) ^ neg
     return None
+
+
+def implied_atoms(n, truth, facts):
+    """Decompose a decided condition into the atomic conditions it implies, given the truths already known on the path:
+    (A || B) false => A false, B false;  (A || B) true with A known false => B true;  dually for &&."""
+    core, neg = X.strip_bool(n)
+    if core is None:
+        return []
+    t = truth ^ neg
+    if core.k == "BinaryOperator" and core.op in ("&&", "||"):
+        a, b = core.children
+        if (core.op == "||" and not t) or (core.op == "&&" and t):
+            return implied_atoms(a, t, facts) + implied_atoms(b, t, facts)
+        va, vb = eval3(a, facts), eval3(b, facts)
+        dead = (not t) if core.op == "&&" else t      # value an operand must have to decide the result alone
+        # (A || B) true: if A is known false then B must be true
+        if va is not None and va != dead:
+            return implied_atoms(b, dead, facts)
+        if vb is not None and vb != dead:
+            return implied_atoms(a, dead, facts)
+        return [(core, t)]
+    if core.k == "CallExpr" and core.callee == "__builtin_expect":
+        return implied_atoms(core.children[1], t, facts)
+    return [(core, t)]
